@@ -1,9 +1,171 @@
-import LLTD.Model.Block
-import LLTD.Spec.Block
+/-
+  C08 — Large properties are retrievable byte-exactly by offset.
+-/
+import LLTD.Lemmas.Obs
 
 namespace LLTD.C08
 open LLTD LLTD.Spec
 
-theorem placeholder_layout : X.sizeofDemux = 32 := by decide
+/-! ## The specification itself: chunking and reassembly -/
+
+theorem chunk_length_of_more (p : Nat) (data : List Nat) (off : Nat) (h : (chunk p data off).2 = true) :
+    (chunk p data off).1.length = p := by
+  simp only [chunk, decide_eq_true_eq] at h
+  simp [chunk, List.length_take, List.length_drop]
+  omega
+
+/-- a mapper that starts at offset 0 and advances by the returned length until `more` clears
+    reassembles exactly the platform's bytes — for every data length and every per-frame payload P > 0 -/
+theorem reassemble_from (p : Nat) (hp : 0 < p) (data : List Nat) :
+    ∀ (fuel off : Nat), data.length < off + fuel * p → reassemble p data fuel off = data.drop off := by
+  intro fuel
+  induction fuel with
+  | zero =>
+    intro off h
+    simp at h
+    simp [reassemble, List.drop_eq_nil_of_le (Nat.le_of_lt h)]
+  | succ k ih =>
+    intro off h
+    simp only [reassemble]
+    by_cases hm : (chunk p data off).2 = true
+    · have hlen := chunk_length_of_more p data off hm
+      rw [if_pos hm, hlen, ih (off + p) (by rw [Nat.succ_mul] at h; omega)]
+      simp only [chunk]
+      rw [← List.drop_drop, List.take_append_drop]
+    · rw [if_neg hm]
+      simp only [chunk, decide_eq_true_eq] at hm
+      simp only [chunk]
+      apply List.take_of_length_le
+      simp [List.length_drop]; omega
+
+theorem reassemble_all (p : Nat) (hp : 0 < p) (data : List Nat) : reassemble p data (data.length + 1) 0 = data := by
+  have := reassemble_from p hp data (data.length + 1) 0 (by
+    have : data.length + 1 ≤ (data.length + 1) * p := Nat.le_mul_of_pos_right _ hp
+    omega)
+  simpa using this
+
+/-! ## The model's response against the independent decoder -/
+
+theorem or_more (p : Nat) (h : p < 16384) : (p ||| 0x8000) % u16 = p + 32768 := by
+  have key := Nat.two_pow_add_eq_or_of_lt (i := 15) (b := p) (by omega) 1
+  have e : (0x8000 : Nat) = 2 ^ 15 * 1 := by decide
+  rw [e, Nat.or_comm, ← key]
+  unfold u16; omega
+
+/-- the length field and the number of payload bytes are exactly the specification's chunk -/
+theorem fields_spec (p : Nat) (hp : p < 16384) (data : List Nat) (off : Nat) :
+    let r := respFields p (some data) off
+    r.1 = (chunk p data off).1.length ∧ r.2 % 16384 = r.1 ∧ (decide (r.2 ≥ 32768)) = (chunk p data off).2 ∧
+    (data.drop off).take r.1 = (chunk p data off).1 := by
+  simp only [respFields, optLen, chunk, Option.isNone_some, Bool.false_eq_true, false_or]
+  by_cases h0 : data.length = 0
+  · have : data = [] := List.eq_nil_of_length_eq_zero h0
+    subst this
+    simp
+  · simp only [h0, if_false]
+    by_cases h1 : data.length > off + p
+    · simp only [h1, if_true, or_more p hp]
+      refine ⟨?_, by omega, by first | (simp; done) | (simp; omega), trivial⟩
+      simp [List.length_take, List.length_drop]; omega
+    · simp only [h1, if_false]
+      by_cases h2 : data.length > off
+      · have hlt : data.length - off < u16 := by unfold u16; omega
+        simp only [h2, if_true, Nat.mod_eq_of_lt hlt]
+        refine ⟨?_, by omega, by first | (simp; done) | (simp; omega), ?_⟩
+        · simp [List.length_take, List.length_drop]; omega
+        · rw [List.take_of_length_le (by simp [List.length_drop]), List.take_of_length_le (by simp [List.length_drop]; omega)]
+      · simp only [h2, if_false]
+        have : data.drop off = [] := List.drop_eq_nil_of_le (by omega)
+        simp [this]
+
+/-- a request with sequence number zero is not answered and changes nothing -/
+theorem seq_zero_ignored (c : Cfg) (g : Glob) (w : World) (st : St) (img : List Nat) (h : fSeq img = 0) :
+    parseQueryLargeTlv c g w st img = { st := st, w := w, fx := [] } := by
+  simp [parseQueryLargeTlv, h]
+
+/-- the scan of the zero-initialised 64-byte buffer stops at the end of a string of `m` non-NUL UCS-2 characters -/
+theorem scan_spec (buf : List Nat) (m : Nat) (hm : m ≤ 32)
+    (hnz : ∀ k, k < m → ¬(byteAt buf (2 * k) = 0 ∧ byteAt buf (2 * k + 1) = 0))
+    (hz : m < 32 → byteAt buf (2 * m) = 0 ∧ byteAt buf (2 * m + 1) = 0) :
+    ∀ (fuel j : Nat), j ≤ m → 32 ≤ fuel + j → hwidScan buf fuel (2 * j) = 2 * m := by
+  intro fuel
+  induction fuel with
+  | zero =>
+    intro j hj hf
+    simp only [hwidScan]
+    omega
+  | succ k ih =>
+    intro j hj hf
+    simp only [hwidScan]
+    by_cases hlt : 2 * j + 1 < 64
+    · rw [if_pos hlt]
+      by_cases hpair : byteAt buf (2 * j) = 0 ∧ byteAt buf (2 * j + 1) = 0
+      · rw [if_pos hpair]
+        by_cases hjm : j < m
+        · exact absurd hpair (hnz j hjm)
+        · omega
+      · rw [if_neg hpair]
+        have hjm : j < m := by
+          by_cases h : j < m
+          · exact h
+          · have e : j = m := by omega
+            have : m < 32 := by omega
+            rw [e] at hpair
+            exact absurd (hz this) hpair
+        have := ih (j + 1) (by omega) (by omega)
+        rw [Nat.mul_add, Nat.mul_one] at this
+        exact this
+    · rw [if_neg hlt]
+      omega
+
+theorem byteAt_take_pad (h : List Nat) (n i : Nat) (hl : h.length ≤ n) :
+    byteAt (h.take n ++ zeros (n - (h.take n).length)) i = if i < h.length then byteAt h i else 0 := by
+  have ht : h.take n = h := List.take_of_length_le hl
+  rw [ht]
+  unfold byteAt
+  by_cases hi : i < h.length
+  · simp [hi, List.getD_eq_getElem?_getD, List.getElem?_append_left hi]
+  · simp only [hi, if_false, List.getD_eq_getElem?_getD]
+    rw [List.getElem?_append_right (by omega)]
+    simp [zeros, List.getElem?_replicate]
+    split <;> rfl
+
+/-- the hardware identifier the core serves is the platform's, when that is a UCS-2LE string (port contract) -/
+theorem hwid_exact (g : Glob) (h : hwIdWellFormed g.hwid = true) : hwidData g = g.hwid := by
+  simp only [hwIdWellFormed, Bool.and_eq_true, decide_eq_true_eq, beq_iff_eq, List.all_eq_true, List.mem_range] at h
+  obtain ⟨⟨hlen, heven⟩, hnz⟩ := h
+  unfold hwidData
+  have hb := fun i => byteAt_take_pad g.hwid 64 i hlen
+  have ht : g.hwid.take 64 = g.hwid := List.take_of_length_le hlen
+  have key : hwidScan (g.hwid.take 64 ++ zeros (64 - (g.hwid.take 64).length)) 32 0 = 2 * (g.hwid.length / 2) := by
+    have := scan_spec (g.hwid.take 64 ++ zeros (64 - (g.hwid.take 64).length)) (g.hwid.length / 2) (by omega)
+      (by
+        intro k hk
+        rw [hb, hb]
+        have h1 : 2 * k < g.hwid.length := by omega
+        have h2 : 2 * k + 1 < g.hwid.length := by omega
+        simp only [h1, h2, if_true]
+        have := hnz k hk
+        simp only [Bool.not_eq_true', Bool.and_eq_false_iff, beq_eq_false_iff_ne, ne_eq] at this
+        intro hc
+        rcases this with t | t
+        · exact t hc.1
+        · exact t hc.2)
+      (by
+        intro _
+        rw [hb, hb]
+        have h1 : ¬ 2 * (g.hwid.length / 2) < g.hwid.length := by omega
+        have h2 : ¬ 2 * (g.hwid.length / 2) + 1 < g.hwid.length := by omega
+        simp [h1, h2])
+      32 0 (by omega) (by omega)
+    simpa using this
+  simp only []
+  rw [key]
+  have e : 2 * (g.hwid.length / 2) = g.hwid.length := by omega
+  rw [e, ht, List.take_left' rfl]
+
+/-- non-vacuity -/
+example : reassemble 3 [1, 2, 3, 4, 5, 6, 7] 8 0 = [1, 2, 3, 4, 5, 6, 7] := by decide
+example : respFields 5 (some [1, 2, 3, 4, 5, 6, 7, 8]) 0 = (5, 5 + 32768) := by decide
 
 end LLTD.C08
